@@ -146,7 +146,30 @@ def c13_check(info):
                     got = O.run(s2, ("retrieve", target), c)
                     if got[0] != "ok" and not (kind == "tag" and op[2] == "N"):
                         yield "after a successful retry the pid is not retrievable", {"retrieve": got[0]}
+                # "at once" is first of all the SAME store object (a long-running service does not re-open its store after
+                # an I/O error): whatever the failed call left behind in memory must not stand in the way either
+                fresh_ok = again[0] == "ok"
+                restore(root, info["tree"])
+                env.set_root(root)
+                again = O.run(r.store, op, c)
+                if not fresh_ok:
+                    pass  # what is on disk already stands in the way (reported above); the instance adds nothing
+                elif again[0] != "ok":
+                    yield "the pid cannot be stored again at once on the same store instance after the failed call", {
+                        "retry": again[0], "message": str(again[1])[:160]}
+                else:
+                    got = O.run(r.store, ("retrieve", target), c)
+                    if got[0] != "ok" and not (kind == "tag" and op[2] == "N"):
+                        yield "after a successful retry on the same store instance the pid is not retrievable", {"retrieve": got[0]}
+                    if fscen.visible(fscen.absof(snapshot(root)), c) != ref["vis"]:
+                        yield "a successful retry on the same store instance does not leave the state of the fault-free call", {}
     elif kind == "store_meta":
+        if ref["outcome"][0] == "ok":
+            restore(root, info["tree"])
+            env.set_root(root)
+            again = O.run(r.store, op, c)
+            if again[0] != "ok":
+                yield "store_metadata cannot be repeated on the same store instance after the failed call", {"retry": again[0]}
         if sprobe[target][1:] != ini["probe"][target][1:]:
             yield "after the failed store_metadata the previous document version is not intact", {}
 
